@@ -8,6 +8,7 @@
 package gocql
 
 import (
+	"sync/atomic"
 	"fmt"
 	"strings"
 	"sync"
@@ -27,7 +28,7 @@ type vxC11Host struct {
 }
 
 type vxC11Op struct {
-	Kind int `json:"kind"` // 0 discover(AddHost) 1 connected(up+HostUp) 2 down(down+HostDown) 3 state down only 4 RemoveHost 5 bulk AddHosts(this, next, a known one)
+	Kind int `json:"kind"` // 0 discover(AddHost) 1 connected(up+HostUp) 2 down(down+HostDown) 3 state down only 4 RemoveHost 5 bulk AddHosts(this, next, a known one) 6 the schema becomes unreadable 7 readable again 8 KeyspaceChanged event
 	Host int `json:"host"`
 }
 
@@ -115,10 +116,15 @@ type vxC11World struct {
 	inRing []bool // AddHost'ed and not RemoveHost'ed
 	inFB   []bool // known to the round-robin layer (HostDown drops it there, HostUp/AddHost restore it)
 	ks     *KeyspaceMetadata
+	// the keyspace metadata can be read (op 6/7); mapOK: it could be read the last time the policy rebuilt its
+	// replica map (every ring change and every KeyspaceChanged event) - without it the policy knows only the
+	// owner of a token's range
+	schemaOK int32
+	mapOK    bool
 }
 
 func vxC11Build(c *vxC11Policy, hs []vxC11Host) *vxC11World {
-	w := &vxC11World{c: c}
+	w := &vxC11World{c: c, schemaOK: 1}
 	var base HostSelectionPolicy
 	switch c.Base {
 	case 0:
@@ -153,7 +159,7 @@ func vxC11Build(c *vxC11Policy, hs []vxC11Host) *vxC11World {
 		w.ta.getKeyspaceName = func() string { return "ks" }
 		ks := w.ks
 		w.ta.getKeyspaceMetadata = func(name string) (*KeyspaceMetadata, error) {
-			if ks == nil || name != "ks" {
+			if ks == nil || name != "ks" || atomic.LoadInt32(&w.schemaOK) == 0 {
 				return nil, fmt.Errorf("keyspace %q: no metadata", name)
 			}
 			return ks, nil
@@ -193,6 +199,7 @@ func vxC11Build(c *vxC11Policy, hs []vxC11Host) *vxC11World {
 		}
 	}
 	w.pol.KeyspaceChanged(KeyspaceUpdateEvent{Keyspace: "ks"})
+	w.mapOK = w.ks != nil
 	return w
 }
 
@@ -201,9 +208,20 @@ func (w *vxC11World) apply(op vxC11Op) {
 		return
 	}
 	h, i := w.hosts[op.Host], op.Host
+	readable := w.ks != nil && atomic.LoadInt32(&w.schemaOK) == 1
 	switch op.Kind {
+	case 6:
+		atomic.StoreInt32(&w.schemaOK, 0)
+	case 7:
+		atomic.StoreInt32(&w.schemaOK, 1)
+	case 8:
+		w.pol.KeyspaceChanged(KeyspaceUpdateEvent{Keyspace: "ks"})
+		w.mapOK = readable
 	case 0: // startPoolFill: AddHost, state untouched
 		w.pol.AddHost(h)
+		if !w.inRing[i] {
+			w.mapOK = readable
+		}
 		w.inRing[i], w.inFB[i] = true, true
 	case 1: // handleNodeConnected (only for hosts the session still has in its ring)
 		if !w.inRing[i] {
@@ -223,6 +241,9 @@ func (w *vxC11World) apply(op vxC11Op) {
 		h.setState(NodeDown)
 	case 4: // removeHost
 		w.pol.RemoveHost(h)
+		if w.inRing[i] {
+			w.mapOK = readable
+		}
 		w.inRing[i], w.inFB[i] = false, false
 	case 5: // the bulk form of discovery (AddHosts, what Session.init uses): this host, the next one, and last a host that is known already
 		batch := []*HostInfo{h, w.hosts[(i+1)%len(w.hosts)]}
@@ -243,6 +264,7 @@ func (w *vxC11World) apply(op vxC11Op) {
 		for _, j := range []int{i, (i + 1) % len(w.hosts)} {
 			w.inRing[j], w.inFB[j] = true, true
 		}
+		w.mapOK = readable
 	}
 }
 
@@ -313,7 +335,7 @@ func (w *vxC11World) replicasForKey(key int) (reps []*HostInfo, routed bool) {
 		return nil, false
 	}
 	tok := ring.partitioner.Hash(w.routingKey(key))
-	if w.ks != nil {
+	if w.ks != nil && w.mapOK {
 		if strat := getStrategy(w.ks, nopLogger{}); strat != nil {
 			if ht := strat.replicaMap(ring).replicasFor(tok); ht != nil {
 				return ht.hosts, true
@@ -558,7 +580,11 @@ func vxC11Run(c *vxC11Case, k *vstats.Case) error {
 		w = vxC11Build(&c.Pol, c.Hosts)
 		for _, st := range c.Steps {
 			for _, op := range st.Ops {
+				was := w.mapOK
 				w.apply(op)
+				if was && !w.mapOK && w.ta != nil {
+					k.Class("replica map lost: the ring changed while the schema was unreadable")
+				}
 			}
 			if w.classify(k, st.Key) {
 				k.NonTrivial()
@@ -642,7 +668,7 @@ func TestVxC11Sequence(t *testing.T) {
 				st := vxC11Step{}
 				if len(c.Hosts) > 0 {
 					for j, no := 0, rapid.IntRange(0, 3).Draw(t, "nops"); j < no; j++ {
-						st.Ops = append(st.Ops, vxC11Op{Kind: rapid.IntRange(0, 5).Draw(t, "op"), Host: rapid.IntRange(0, len(c.Hosts)-1).Draw(t, "ophost")})
+						st.Ops = append(st.Ops, vxC11Op{Kind: rapid.SampledFrom([]int{0, 0, 1, 1, 2, 2, 3, 4, 4, 5, 6, 7, 8}).Draw(t, "op"), Host: rapid.IntRange(0, len(c.Hosts)-1).Draw(t, "ophost")})
 					}
 				}
 				switch rapid.IntRange(0, 7).Draw(t, "keykind") {
